@@ -316,6 +316,11 @@ class Speller:
             line += self.trailing(key, 'c2', line_ok=True)
         else:
             line += self.trailing(key, 'c1', line_ok=True)
+        if '//' not in line and '/*' not in line and "'" * 3 not in line and self.hit('stray_after_column'):
+            # a column definition ends with its line: more words on the same line (another definition run together with it,
+            # two stray words) are not DBML
+            line += ' ' + self.rng.choice(['stray tokens', 'x y', 'other_col int', '"quoted name" varchar(5)', 'b int [pk]',
+                                           "zz text [note: 'n']", 'left over'])
         return line
 
     def type_text(self, typ):
